@@ -6,6 +6,8 @@
 //	seq  : single-goroutine lockstep scripts, result of every call compared with the thread-program model.
 //	stress: longer free-running histories judged by the Go checker only (volume).
 //	reent-seq / reent-conc: Iterate consumers that call back into the store (reent.go).
+//	big: large uniform values, overwrites of existing keys vs readers: no torn value (big.go).
+//	sbatch / sbatch-dir / sbatch-seq: one batch object shared by goroutines and reused after Commit (sbatch.go).
 //
 // Every goroutine operation runs under a watchdog: a history that does not finish in time is reported as a hang.
 package main
@@ -87,6 +89,7 @@ type call struct {
 	Keys bool    `json:"keys,omitempty"`
 	Lim  int     `json:"lim,omitempty"`
 	Ws   []write `json:"ws,omitempty"`
+	B    int     `json:"b,omitempty"` // bset bdel bcancel bcommit: index of the SHARED batch object (sbatch.go); V = the view it was made from
 	// iter only: Cb != nil makes the consumer re-enter the store; Cb[j] = the calls it performs inside its j-th invocation
 	Cb [][]call `json:"cb,omitempty"`
 }
@@ -114,7 +117,8 @@ func (r ret) eq(o ret) bool {
 
 // atomic operation of the sequential spec (full keys)
 type sop struct {
-	Kind  string `json:"op"` // get has set del delprefix iter nop close
+	Kind  string `json:"op"` // get has set del delprefix iter nop close; shared batch object B: bset bdel bcancel bcommit
+	B     int    `json:"b,omitempty"`
 	K     string `json:"k,omitempty"`
 	Val   string `json:"val,omitempty"`
 	Strip int    `json:"strip,omitempty"`
@@ -266,7 +270,10 @@ func (s *spy) Flush() error {
 // ---------------------------------------------------------------- one store with its view objects
 
 type world struct {
-	objs []kvstore.KVStore // by vid
+	objs    []kvstore.KVStore          // by vid
+	batches []kvstore.BatchedMutations // shared batch objects (sbatch.go)
+	tspies  []*tspy                    // per shared batch: spy below its flushkv wrapper (nil for a plain view)
+	big     bool                       // values are compressed descriptions of large uniform values (big.go)
 }
 
 func newWorld() *world {
@@ -293,6 +300,7 @@ type actor struct {
 	spies   []*spy
 	batch   kvstore.BatchedMutations
 	fails   []string // composition-oracle failures
+	torn    []tornInfo
 	reentrant
 }
 
@@ -387,7 +395,7 @@ func (a *actor) exec(c call) (ret, []opres) {
 		v, err := h.Get([]byte(c.K))
 		r := errRet(err)
 		if err == nil {
-			r = ret{Kind: "val", Val: string(v)}
+			r = ret{Kind: "val", Val: a.dec(c, c.K, v)}
 		}
 		return r, []opres{{sop{Kind: "get", K: full}, r}}
 	case "has":
@@ -398,7 +406,7 @@ func (a *actor) exec(c call) (ret, []opres) {
 		}
 		return r, []opres{{sop{Kind: "has", K: full}, r}}
 	case "set":
-		return mut(sop{Kind: "set", K: full, Val: c.Val}, h.Set([]byte(c.K), []byte(c.Val)))
+		return mut(sop{Kind: "set", K: full, Val: c.Val}, h.Set([]byte(c.K), a.enc(c.Val)))
 	case "del":
 		return mut(sop{Kind: "del", K: full}, h.Delete([]byte(c.K)))
 	case "delprefix":
@@ -420,7 +428,7 @@ func (a *actor) exec(c call) (ret, []opres) {
 			}, dir)
 		} else {
 			err = h.Iterate([]byte(c.K), func(k kvstore.Key, v kvstore.Value) bool {
-				l = append(l, kv{string(k), string(v)})
+				l = append(l, kv{string(k), a.dec(c, string(k), v)})
 				a.callback(c, len(l)-1)
 				return len(l) < c.Lim
 			}, dir)
@@ -452,7 +460,7 @@ func (a *actor) exec(c call) (ret, []opres) {
 			if w.Del {
 				must(b.Delete([]byte(w.K)))
 			} else {
-				must(b.Set([]byte(w.K), []byte(w.Val)))
+				must(b.Set([]byte(w.K), a.enc(w.Val)))
 			}
 		}
 		outer := errRet(b.Commit())
@@ -479,6 +487,8 @@ func (a *actor) exec(c call) (ret, []opres) {
 			}
 		}
 		return outer, append(ops, tail...)
+	case "bset", "bdel", "bcancel", "bcommit":
+		return a.execShared(c)
 	}
 	panic("kind " + c.Kind)
 }
@@ -695,7 +705,21 @@ type hangInfo struct {
 
 // runFree executes scripts[t] in goroutine t on a fresh store. Returns the records; hang != nil when the watchdog fired.
 func runFree(scripts [][]call, jitter []int, rounds bool, timeout time.Duration) (h []rec, fails []string, hang []string) {
-	w := newWorld()
+	h, fails, _, hang = runFreeOpt(scripts, jitter, rounds, timeout, freeOpt{})
+	return
+}
+
+// freeOpt: big = large uniform values (big.go); bviews = views of the shared batch objects made before the goroutines
+// start; final = calls made by one more goroutine after all others have returned
+type freeOpt struct {
+	big    bool
+	bviews []int
+	final  []call
+}
+
+func runFreeOpt(scripts [][]call, jitter []int, rounds bool, timeout time.Duration, opt freeOpt) (h []rec, fails []string, torn []tornInfo, hang []string) {
+	w := newWorldB(opt.bviews)
+	w.big = opt.big
 	var ctr atomic.Int64
 	// rounds mode: the k-th calls of all goroutines are released together (spin barrier), so that they really race
 	var arrived atomic.Int64
@@ -718,8 +742,9 @@ func runFree(scripts [][]call, jitter []int, rounds bool, timeout time.Duration)
 	}
 	var start atomic.Bool
 	G := len(scripts)
-	recsOf := make([][]rec, G)
-	failsOf := make([][]string, G)
+	recsOf := make([][]rec, G+1)
+	failsOf := make([][]string, G+1)
+	tornOf := make([][]tornInfo, G+1)
 	cur := make([]atomic.Int64, G) // index of the call in flight + 1, 0 = none
 	var wg sync.WaitGroup
 	for t := 0; t < G; t++ {
@@ -764,10 +789,29 @@ func runFree(scripts [][]call, jitter []int, rounds bool, timeout time.Duration)
 				idx++
 			}
 			failsOf[t] = a.fails
+			tornOf[t] = a.torn
 		}(t)
 	}
 	done := make(chan struct{})
-	go func() { wg.Wait(); close(done) }()
+	go func() {
+		wg.Wait()
+		if len(opt.final) > 0 {
+			a := newActor(w)
+			for ci, c := range opt.final {
+				cur[0].Store(int64(-ci) - 1)
+				inv := int(ctr.Add(1))
+				_, ops := a.exec(c)
+				res := int(ctr.Add(1))
+				for _, o := range ops {
+					recsOf[G] = append(recsOf[G], rec{T: G, I: ci, Inv: inv, Res: res, Op: o.Op, Ret: o.Ret})
+				}
+			}
+			cur[0].Store(0)
+			failsOf[G] = a.fails
+			tornOf[G] = a.torn
+		}
+		close(done)
+	}()
 	start.Store(true)
 	select {
 	case <-done:
@@ -775,19 +819,22 @@ func runFree(scripts [][]call, jitter []int, rounds bool, timeout time.Duration)
 		for t := 0; t < G; t++ {
 			if ci := cur[t].Load(); ci > 0 {
 				hang = append(hang, fmt.Sprintf("goroutine %d: %+v", t, scripts[t][ci-1]))
+			} else if ci < 0 {
+				hang = append(hang, fmt.Sprintf("final phase: %+v", opt.final[-ci-1]))
 			}
 		}
 		if hang == nil {
 			hang = []string{"no call in flight (harness stalled)"}
 		}
-		return nil, nil, hang
+		return nil, nil, nil, hang
 	}
-	for t := 0; t < G; t++ {
+	for t := 0; t <= G; t++ {
 		h = append(h, recsOf[t]...)
 		fails = append(fails, failsOf[t]...)
+		torn = append(torn, tornOf[t]...)
 	}
 	sort.SliceStable(h, func(i, j int) bool { return h[i].Inv < h[j].Inv })
-	return h, fails, nil
+	return h, fails, torn, nil
 }
 
 // overlapping pairs of records of different goroutines, at least one of them a write/close
@@ -841,6 +888,12 @@ func main() {
 	nclose := fs.Int("nclose", 20000, "directed close-race mini histories (60 of them also to Coq)")
 	nreseq := fs.Int("nreseq", 300, "sequential scripts with re-entrant Iterate consumers (half of them also to Coq)")
 	nreconc := fs.Int("nreconc", 300, "re-entrant consumer + writer arriving inside a callback (60 of them also to Coq)")
+	nbig := fs.Int("nbig", 200, "histories with large uniform values, overwrites of existing keys vs readers (40 of them also to Coq)")
+	nsb := fs.Int("nsb", 6000, "free-running histories around a shared batch object (40 of them also to Coq)")
+	nsbdir := fs.Int("nsbdir", 200, "shared batch: adder started while a Commit is parked behind the view lock (30 of them also to Coq)")
+	nsbseq := fs.Int("nsbseq", 200, "shared batch, one goroutine: reuse after Commit/Cancel (all to Coq)")
+	fs.IntVar(&bigUse, "biguse", len(bigLens), "large values: use only the first so many lengths of 64Ki 64Ki+2 128Ki 256Ki 1Mi")
+	only := fs.String("only", "", "comma-separated streams to run (neg reent seq close lin stress big sbatch); empty = all")
 	fs.Parse(os.Args[2:])
 
 	rng := vx.NewRng(*seed)
@@ -855,9 +908,23 @@ func main() {
 		st.CaseIndex = append(st.CaseIndex, desc)
 	}
 	hangs := 0
+	on := func(name string) bool {
+		if *only == "" {
+			return true
+		}
+		for _, x := range strings.Split(*only, ",") {
+			if x == name {
+				return true
+			}
+		}
+		return false
+	}
 
 	// ---- directed synthetic histories: the checkers must reject them (sanity of the oracle, not of the code)
 	for _, d := range directedNegatives() {
+		if !on("neg") {
+			break
+		}
 		if linearizable(d) {
 			vx.Die("Go checker accepts a directed non-linearizable history")
 		}
@@ -866,12 +933,24 @@ func main() {
 	}
 
 	// ---- re-entrant consumers (own generator: the streams below stay what they were)
-	runReentSeq(&gen{r: vx.NewRng(*seed ^ 0x52454e54).Fork().Fork()}, *nreseq, *nreseq/2, *seed, st, addCase)
-	runReentConc(&gen{r: vx.NewRng(*seed ^ 0x52454e55).Fork().Fork().Fork()}, *nreconc, 60, *seed, st, addCase)
+	if on("reent") {
+		runReentSeq(&gen{r: vx.NewRng(*seed ^ 0x52454e54).Fork().Fork()}, *nreseq, *nreseq/2, *seed, st, addCase)
+		runReentConc(&gen{r: vx.NewRng(*seed ^ 0x52454e55).Fork().Fork().Fork()}, *nreconc, 60, *seed, st, addCase)
+	}
+
+	// ---- large values (big.go), shared batch objects (sbatch.go); own generators as well
+	if on("big") {
+		runBig(&gen{r: vx.NewRng(*seed ^ 0x42494731).Fork()}, *nbig, 40, *seed, st, addCase)
+	}
+	if on("sbatch") {
+		runSBatchSeq(&gen{r: vx.NewRng(*seed ^ 0x53424131).Fork()}, *nsbseq, *nsbseq, *seed, st, addCase)
+		runSBatchDir(&gen{r: vx.NewRng(*seed ^ 0x53424132).Fork().Fork()}, *nsbdir, 30, *seed, st, addCase)
+		runSBatch(&gen{r: vx.NewRng(*seed ^ 0x53424133).Fork().Fork().Fork()}, *nsb, 40, *seed, st, addCase)
+	}
 
 	// ---- lockstep scripts
 	gs := &gen{r: rng.Fork()}
-	for n := 0; n < *nseq; n++ {
+	for n := 0; n < *nseq && on("seq"); n++ {
 		w := newWorld()
 		a := newActor(w)
 		var done []call
@@ -1066,9 +1145,15 @@ func main() {
 			}
 		}
 	}
-	runClose(*nclose, 60)
-	runBatch(*nlin, true, 6, 12, "lin")
-	runBatch(*nstress, false, 16, 40, "stress")
+	if on("close") {
+		runClose(*nclose, 60)
+	}
+	if on("lin") {
+		runBatch(*nlin, true, 6, 12, "lin")
+	}
+	if on("stress") {
+		runBatch(*nstress, false, 16, 40, "stress")
+	}
 
 	st.Extra["gomaxprocs"] = runtime.GOMAXPROCS(0)
 	if err := cf.Write(*out); err != nil {
